@@ -5,7 +5,7 @@
   lexer takes it for the class).
 -/
 import DnsModel.TextCodec
-import DnsProofs.C05Text
+import DnsProofs.C05Itoa
 namespace Dns.C05Y
 open Dns Dns.Lex Dns.TextCodec Dns.C07 Dns.C06T Dns.C05X
 
@@ -61,6 +61,21 @@ theorem printed_type_read_back (n : Nat) (hn : n ≤ 65535) (h255 : n ≠ 255) :
       · exact typeMnemonicB_sound _ _ e
     · exact hnum
   | none => exact hnum
+
+theorem any_rdType : (printType 255 ≠ [] ∧ wordOK (printType 255) = true) ∧ rdType (printType 255) = some 255 := by
+  decide +kernel
+
+/-- **printed_type_rdata**: inside RDATA (type bitmaps of NSEC, CSYNC) what `Type.String` prints is one word that the
+    bitmap loop reads as that type, for every code -/
+theorem printed_type_rdata (n : Nat) (hn : n ≤ 65535) : Word (printType n) ∧ rdType (printType n) = some n := by
+  by_cases h : n = 255
+  · subst h; exact any_rdType
+  · obtain ⟨hw, _, _, hl⟩ := printed_type_read_back n hn h
+    refine ⟨hw, ?_⟩
+    unfold rdType
+    rcases hl with hl | ⟨hl, _, hnum⟩
+    · rw [hl]
+    · rw [hl]; exact hnum
 
 /-- **printed_class_read_back**: for every class code, what `Class.String` prints is classified as that class -/
 theorem printed_class_read_back (n : Nat) (hn : n ≤ 65535) : ClassWord (printClass n) n := by
